@@ -4,10 +4,11 @@ CONSTANTS
   OffsMod = 65536
   Atoms <- AtomsSel
   Sel = "req"
+  Extra = 0
   MaxLen = 40
   Cfgs <- CfgsFL
   Junk = 34
   EmitOn = TRUE
 CONSTRAINT HeadOK
-INVARIANTS ResumeEqFreshC StableC OffsSaneC CovProbe Emit DeclCore DeclKind DeclExtra
+INVARIANTS ResumeEqFreshC StableC OffsSaneC CovProbe Emit EmitTwo EmitByte DeclCore DeclKind DeclExtra
 CHECK_DEADLOCK FALSE
